@@ -71,6 +71,13 @@ Definition oracle10 (c : case10) (s0 s1 : store) : bool :=
          | _ => req_quiet r || match fs with [] => false | _ => true end
          end)
     end &&
+    (* every frame sent for a non-get request - its completion or an error reply - carries the
+       request's own opaque (binary; gets report errors with opaque 0, as GetRequest.GetOpaque says) *)
+    (match r, decode p (q_reply c) with
+     | (RGet _ _ _ | RGetE _ _ _), _ => true
+     | _, Some fs => forallb (fun f => match frame_opaque f with Some o => o =? req_opaque r | None => true end) fs
+     | _, None => true
+     end) &&
     (* no stale value after an ack; reads after a fault: the value before, the value after, or a miss *)
     forallb (fun kr => let '(k, rep) := kr in
                let ok_new := bytes_eqb rep (read_reply p k (live now s1 k)) in
